@@ -8,6 +8,7 @@ open C06Model
 open C06InitModel
 open C06SencModel
 open C06TrexModel
+open C06TimingModel
 
 let e = C07Aes.aes128_encrypt
 let d = C07Aes.aes128_decrypt
@@ -166,6 +167,23 @@ let moov_of (s : string) : mvchild list =
       else if x.[0] = 'p' then MVPssh (n_of_int (int_of_string (S.sub x 1 (S.length x - 1))))
       else MVOther (n_of_int (int_of_string (S.sub x 1 (S.length x - 1))))) (split_on '+' s)
 
+(* ---- trun / timing cases ---- *)
+let string_of_n (x : coq_N) : string = string_of_int (int_of_n x)
+let tsample_string (s : tsample) : string =
+  Printf.sprintf "%d/%d/%d/%d" (int_of_n s.ts_flags) (int_of_n s.ts_dur) (int_of_n s.ts_size) (int_of_n s.ts_cto)
+let tsamples_of (s : string) : tsample list =
+  if s = "-" || s = "" then []
+  else L.map (fun x -> match split_on '/' x with
+      | [f; d; z; c] -> { ts_flags = n_of_int (int_of_string f); ts_dur = n_of_int (int_of_string d);
+                          ts_size = n_of_int (int_of_string z); ts_cto = n_of_int (int_of_string c) }
+      | _ -> failwith ("bad sample " ^ x)) (split_on ';' s)
+let trun_of (bits : string) doff ff samples : trun_t =
+  { tr_dur = bits.[0] = '1'; tr_size = bits.[1] = '1'; tr_flags = bits.[2] = '1'; tr_cto = bits.[3] = '1';
+    tr_first = bits.[4] = '1'; tr_doff = bits.[5] = '1'; tr_data_offset = doff; tr_first_flags = ff; tr_samples = samples }
+let trun_string (t : trun_t) : string =
+  Printf.sprintf "%d/%d/%s" (int_of_n t.tr_data_offset) (int_of_n t.tr_first_flags)
+    (match t.tr_samples with [] -> "-" | l -> S.concat ";" (L.map tsample_string l))
+
 let check id what model obs =
   if model = obs then Printf.printf "OK %s\n" id
   else Printf.printf "MISMATCH %s %s model=%s\n" id what
@@ -263,6 +281,31 @@ let () =
           | Ok (m2, tis) -> "ok|" ^ moov_string m2 ^ "|" ^ csv info_string tis
           | Err -> "err" | Panic -> "panic" | OutOfFuel -> "outoffuel" in
         check id "DecryptInit (several entries / tracks)" model obs
+      | ["U"; id; tfhd; bits; doff; ff; samples; base; trex; obs] ->
+        let n s = n_of_int (int_of_string s) in
+        let opt s = if s = "-" then None else Some (n s) in
+        let th = match split_on '|' tfhd with
+          | [d; z; f] -> { th_dur = opt d; th_size = opt z; th_flags = opt f }
+          | _ -> failwith "bad tfhd" in
+        let tr = trun_of bits (n doff) (n ff) (tsamples_of samples) in
+        let tx = match split_on '/' trex with
+          | [d; z; f] -> { tx_dur = n d; tx_size = n z; tx_flags = n f }
+          | _ -> failwith "bad trex" in
+        let one trexo =
+          let meta = fragment_meta th trexo tr (n base) in
+          let m = add_sample_defaults th trexo tr in
+          let body = trun_encode_body m in
+          let re = match body with
+            | Ok b -> (match trun_decode_body tr b with Ok t -> "ok:" ^ trun_string t | _ -> "err")
+            | _ -> "-" in
+          S.concat "|" ["ok:" ^ (match meta with [] -> "-" | _ -> S.concat ";" (L.map (fun (s, t) -> tsample_string s ^ "@" ^ string_of_n t) meta));
+                        (match body with Ok b -> "ok:" ^ hex_of_bytes b | Err -> "err" | _ -> "panic"); re] in
+        check id "GetFullSamples metadata + trun bytes" (one (Some tx) ^ "|" ^ one None) obs
+      | ["V"; id; bits; data; obs] ->
+        let hd = trun_of bits (n_of_int 0) (n_of_int 0) [] in
+        let model = match trun_decode_body hd (bytes_of_hex data) with
+          | Ok t -> "ok:" ^ trun_string t | Err -> "err" | Panic -> "panic" | OutOfFuel -> "outoffuel" in
+        check id "DecodeTrun" model obs
       | ["M"; id; data; obs] ->
         let box = bytes_of_hex data in
         let model = S.concat "|" (L.map (fun p -> res_string senc_state (senc_parse (n_of_int p) box)) [0; 8; 16; 5]) in
